@@ -2,7 +2,7 @@
 see selftest/benign/<module>.NOTES.md).  No check of any property may fire on them."""
 ALL = ["C%02d" % i for i in range(1, 21)]
 # behaviour-preserving patches on which a check still raises an alarm (DESIGN 11.6): listed on every run, not failures
-LIMITS = {"w5", "v6", "u3", "q1", "t4", "y3", "y8"}
+LIMITS = {"w5", "v6", "u3", "q1", "t4", "y3", "y8", "z1"}
 CASES = [
     {"id": "benign-%s" % m, "props": ALL, "expect": "quiet", "patches": [("selftest/benign/%s.diff" % m, False)],
      "note": "independent benign refactoring of src/%s/mod.rs" % m}
@@ -92,6 +92,14 @@ CASES = [
                     ("y6", "builders: shared reserved-label guard, a builder_push! macro, macro <-> hand-written setters, delegation, shared EC2 constructor"),
                     ("y7", "code moved between modules: context enums into private submodules, builder macros, read_to_value to util, to_cbor_array to common, CborOrdering to key"),
                     ("y8", "private signatures changed: try_as_tag unboxed, try_as_map returns IntoIter, CoseSignature::from_cbor_value_depth(value) -> from_cbor_array_depth(items): documented limit"))
+] + [
+    {"id": "benign12-%s" % m, "props": ALL, "expect": "limit" if m in LIMITS else "quiet", "patches": [("selftest/benign/%s.diff" % m, False)], "note": what}
+    for m, what in (("z1", "creating methods of the builders: direct field assignment, inlined temporaries, private aad() helpers, `cipher(..).map(|ct| self.ciphertext(ct))` (that last spelling is a documented limit)"),
+                    ("z2", "encoders: to_cbor_array as an explicit loop, recipients_to_cbor, counter_signatures_to_cbor"),
+                    ("z3", "ProtectedHeader::from_header private constructor: in the setter macro, `.map(Self::from_header)`, struct-update syntax in the wire constructor, cbor_bstr as a match"),
+                    ("z4", "comparators: cmp_int / cmp_text helpers shared by the three label types, or-patterns, then_with, canonicalize picks a fn pointer"),
+                    ("z5", "hand-written PartialEq / Clone / Default that do what the derive does (CoseSign1, CoseMac0, CoseEncrypt0)"),
+                    ("z6", "depth budget through a private descend(depth)? helper; the signature array decoded with map().collect()"))
 ] + [
     {"id": "benign10-good-%s" % m, "props": ALL, "expect": "quiet", "patches": [("selftest/benign/g10-%s.diff" % m, False)],
      "note": "round-10 pair %s-p without its slip (a small behaviour-preserving commit, see seeded/%s-p/NOTES.md)" % (m, m)}
